@@ -27,6 +27,7 @@ def run(ctx):
     impl.chunked(ctx)
     impl.malformed(ctx)
     impl.coalesced(ctx)
+    impl.malformed_with_existing(ctx)
     scases = impl.splitter(ctx)
     if model_ok:
         correspond_split(ctx, scases)
